@@ -33,6 +33,7 @@ import DdsModel.Proofs.Bc7Opaque
 import DdsModel.Proofs.Enc13Opaque
 import DdsModel.Proofs.Enc13Single
 import DdsModel.Proofs.Enc7Consequences
+import DdsModel.Proofs.Enc7Stats
 namespace Dds.C13
 open Dds Dds.Bc Dds.Enc13
 
@@ -726,10 +727,19 @@ theorem bc7_writer_opaque (f : Enc7.Fields) (h : f.WF) (ha : Enc7.AlphaOnes f) :
 example : Enc7.AlphaOnes ⟨6, 0, 0, 0, [[1, 2, 3, 127], [120, 64, 127, 127]], [], [1, 1], 0x0123456789ABCDEF, 0⟩ := by
   decide
 
-/-- `BlockStats`: a block is `opaque()` iff its minimum alpha is 255; `single_color()` compares all four channels -/
+/-- `BlockStats::opaque()` (`min.a == 255` over the running minima of `BlockStats::new`) holds exactly when every pixel of
+the block has alpha 255 (byte alphas) — the `opaque` that selects modes 0–3 / excludes mode 7 (`bc7_opaque_modes`) and
+forces p-bits (1,1) (`bc7_opaque_pbits`), which with `bc7_writer_opaque` leaves only "the alpha FIELDS are all ones"
+(float-dependent) between an opaque input and an opaque output. -/
+theorem bc7_block_stats_opaque (block : List (List Nat)) (hb : ∀ p ∈ block, Enc7.px p 3 ≤ 255) :
+    Enc7.isOpaque (Enc7.blockStats block) = true ↔ ∀ p ∈ block, Enc7.px p 3 = 255 :=
+  Enc7.isOpaque_iff block hb
+
+/-- `BlockStats`: `opaque()`, `single_color()` (compares all four channels), `single_alpha()` on concrete blocks -/
 example : Enc7.isOpaque (Enc7.blockStats [[1, 2, 3, 255], [9, 9, 9, 255]]) = true ∧
     Enc7.isOpaque (Enc7.blockStats [[1, 2, 3, 255], [9, 9, 9, 254]]) = false ∧
     Enc7.singleColor (Enc7.blockStats [[1, 2, 3, 4], [1, 2, 3, 4]]) = some [1, 2, 3, 4] ∧
-    Enc7.singleColor (Enc7.blockStats [[1, 2, 3, 4], [1, 2, 3, 5]]) = none := by decide
+    Enc7.singleColor (Enc7.blockStats [[1, 2, 3, 4], [1, 2, 3, 5]]) = none ∧
+    Enc7.singleAlpha (Enc7.blockStats [[1, 2, 3, 77], [9, 2, 3, 77]]) = some 77 := by decide
 
 end Dds.C13
